@@ -31,7 +31,8 @@ META = dict(
          "incl. force=True switches and nested contexts: no __enter__/__exit__ raises, every setting and the "
          "recursion_memos object are back, enclosing contexts untouched; built-ins' whiteChars are back when they "
          "were in sync with the default on entry), restore_exact (one context, arbitrary inside state), "
-         "packrat_lr_exclusive + packrat_lr_never_both (refuse unless force; never both on, any history), "
+         "packrat_lr_exclusive + packrat_lr_never_both + parse_selector_follows_packrat (refuse unless force; never both on "
+         "and _parse is the caching function exactly while packrat is on, any history), "
          "enablePackrat_idempotent/_twice, users_untouched (no setting change or context touches an existing user "
          "expression). PARTIAL: default_ws_scope_partial speaks about the whiteChars/copyDefaultWhiteChars "
          "attributes only; that these decide what an expression skips is checked on the real parser by the oracle. "
@@ -54,9 +55,11 @@ THEOREMS = [NS + t for t in (
     "packrat_lr_exclusive",
     "packrat_lr_never_both",
     "live_packrat_lr_never_both",
+    "parse_selector_follows_packrat",
     "enablePackrat_idempotent",
     "enablePackrat_twice",
     "users_untouched",
+    "new_expr_after_exit",
     "default_ws_scope_partial",
 )]
 
@@ -302,7 +305,15 @@ def run_real(W: World, case):
                 if stack:
                     ctx = stack.pop()
                     try:
-                        ctx.restore() if variant % 2 else ctx.__exit__(None, None, None)
+                        v = variant % 3
+                        if v == 0:
+                            ctx.__exit__(None, None, None)
+                        elif v == 1:
+                            ctx.restore()
+                        else:  # the block is left by an exception
+                            exc = KeyError("raised inside the with block")
+                            if ctx.__exit__(KeyError, exc, None):
+                                raise common.HarnessError("__exit__ swallowed the exception")
                         err = "ok"
                     except Exception as e:  # noqa: BLE001
                         err, ctx_err = type(e).__name__, True
@@ -344,11 +355,14 @@ def _worker(case):
     try:
         entry, tr = common.with_alarm(20, run_real, W, case)
     except common.CaseTimeout:
+        W.hard_reset()
         return {"hang": True}
     line = dumps([Sym("settings-run")])[1:-1] + " " + dumps(cfg_sexp(W)) + " " + dumps(entry) + " " + dumps(
         [cmd_sexp(c) for c in case["cmds"]])
+    o0 = obs(entry)
     return {"line": line, "impl": dumps(tr), "problems": oracle(W, case, entry, tr),
-            "depth": max([t[2] for t in tr] + [0]), "errs": sorted({str(t[1]) for t in tr})}
+            "depth": max([t[2] for t in tr] + [0]), "errs": sorted({str(t[1]) for t in tr}),
+            "nt": any(obs(t[0]) != o0 for t in tr)}
 
 
 # =================================================================================================
@@ -375,16 +389,23 @@ def oracle(W, case, entry, tr):
         if snap[I_PK] is True and snap[I_LR] is True:
             add("both-modes-enabled", i, "at most one of packrat / left recursion enabled", "both enabled",
                 "packrat_lr_never_both")
+        if (snap[I_PSEL] == "cache") != (snap[I_PK] is True):
+            add("parse-function-inconsistent-with-packrat-flag", i, "_parse is _parseCache exactly while packrat is enabled",
+                {"_parse": snap[I_PSEL], "_packratEnabled": snap[I_PK], "left_recursion": snap[I_LR]},
+                "parse_selector_follows_packrat")
+        if not isinstance(c, str) and c[0] == "setws":
+            for fr in stack:
+                fr[1] = True
         if c == "enter":
             if err != "ok":
                 add(f"enter-raises:{err}", i, "no exception from __enter__", err, "restore_total_and_exact")
             else:
-                stack.append(prev)
+                stack.append([prev, False])
             if snap != prev:
                 add("enter-changes-state", i, "save() changes nothing", "state changed", "restore_total_and_exact")
         elif c == "exit":
             if stack:
-                ent = stack.pop()
+                ent, ws_changed_inside = stack.pop()
                 if err != "ok":
                     add(f"exit-raises:{err}", i, "no exception from __exit__", err, "restore_total_and_exact")
                 else:
@@ -392,11 +413,10 @@ def oracle(W, case, entry, tr):
                     for k in o_ent:
                         if o_ent[k] != o_now[k]:
                             add(f"not-restored:{k}", i, {k: o_ent[k]}, {k: o_now[k]}, "restore_total_and_exact")
-                    if ent[I_MEMO] != snap[I_MEMO] and ent[I_LR] is True:
-                        add("not-restored:recursion_memos-object", i, ent[I_MEMO], snap[I_MEMO], "restore_total_and_exact")
                     sy = _synced_flags(ent)
                     for j, (b0, b1) in enumerate(zip(ent[I_BUILTINS], snap[I_BUILTINS])):
-                        if b0 != b1 and sy[j]:
+                        # known finding region: built-in not in sync on entry AND the default was set inside
+                        if b0 != b1 and (sy[j] or not ws_changed_inside):
                             add("not-restored:builtin-whiteChars", i, {"builtin": str(W.builtins[j]), "value": b0},
                                 {"builtin": str(W.builtins[j]), "value": b1}, "restore_total_and_exact")
                             break
@@ -749,7 +769,8 @@ def run(ctx):
         "new/copy/set_whitespace_chars, nested enter/exit to depth 4) wrapped in a context; malformed stream = "
         "unbalanced enter/exit; exhaustive stream = 5 mode entry configurations x all sequences up to length L over "
         "10 mode commands; non-trivial = the body changes at least one observable setting; built-ins that are not in "
-        "sync with the default at context entry (pristine line_start) are excluded from the restore oracle "
+        "sync with the default at context entry (pristine line_start) are excluded from the restore oracle for blocks "
+        "inside which set_default_whitespace_chars is called "
         f"(known finding {KNOWN_SIG}; its registered witness is replayed from the corpus)"
     )
     ctx.assumptions.append(
@@ -777,8 +798,8 @@ def run(ctx):
     streams = [
         ("corpus", corpus_cases),
         ("exhaustive-modes", exhaustive_mode_cases(ctx.budget(2, 3))),
-        ("histories", [gen_case(rng, W) for _ in range(ctx.budget(2500, 40000))]),
-        ("malformed", [gen_case(rng, W, malformed=True) for _ in range(ctx.budget(400, 5000))]),
+        ("histories", [gen_case(rng, W) for _ in range(ctx.budget(30000, 400000))]),
+        ("malformed", [gen_case(rng, W, malformed=True) for _ in range(ctx.budget(4000, 50000))]),
     ]
     all_problems = []  # (case, problem)
     diff_cases = []
@@ -793,13 +814,10 @@ def run(ctx):
         lines = [r["line"] for r in res]
         impl = [r["impl"] for r in res]
 
-        def nontrivial(c, io, _res=None):
-            return True
-
+        nt = {id(c): r["nt"] for c, r in zip(cases, res)}
         diffs = ctx.correspond(
             name, cases, lines, impl,
-            nontrivial=lambda c, io: any(not isinstance(x, str) and x[0] not in ("new", "copy", "exprws", "reset")
-                                         for x in c["cmds"]),
+            nontrivial=lambda c, io: nt[id(c)],
             outcome_of=lambda c, io: f"len{min(len(c['cmds']) // 4 * 4, 16)}")
         st = ctx.cov["streams"][name]
         st["max_depth"] = max(r["depth"] for r in res)
